@@ -364,7 +364,8 @@ def analyse_primitives(P: Plans) -> dict:
         if not isinstance(f, FuncV) or f.module != "kio.serial.readers" or name.startswith("_"):
             continue
         params = [a.arg for a in f.node.args.args]
-        if len(params) == 1:
+        required = len(params) - len(f.node.args.defaults)
+        if required == 1 and params:
             anns = [f.node.args.args[0].annotation]
             if anns[0] is not None and "IO" in ast.unparse(anns[0]) or params[0] in ("buffer", "stream"):
                 out["readers"][name] = {"desc": export_desc(D.reader_desc(f)), "line": f.node.lineno, "kind": "reader"}
